@@ -8,6 +8,7 @@ import (
 	"crypto/sha256"
 	"encoding/hex"
 	"fmt"
+	"os"
 	"strings"
 	"time"
 
@@ -178,7 +179,7 @@ func relayTimeout(w *sim.World, p *sim.Pkt) (sim.TxResult, []*sim.Pkt) {
 		w.AdvanceTime(d + time.Second)
 	}
 	h := w.FreshHeight(l, p.Dir, relayer)
-	res := w.Deliver(w.SrcChain(p), relayer, w.BuildTimeout(p, 0, h, relayer))
+	res := w.Deliver(w.SrcChain(p), relayer, w.BuildTimeout(p, 1, h, relayer))
 	noteAcks(w, w.SrcChain(p), res)
 	return res, notePackets(w, w.SrcChain(p), res)
 }
@@ -236,3 +237,17 @@ func (t trace) after(sp, sc, dp, dc string) trace {
 }
 
 func intOf(v int64) sdkmath.Int { return sdkmath.NewInt(v) }
+
+// dbg prints diagnostics when VERIF_DEBUG is set (never used for decisions).
+func dbg(format string, args ...any) {
+	if os.Getenv("VERIF_DEBUG") != "" {
+		fmt.Fprintf(os.Stderr, "DBG "+format+"\n", args...)
+	}
+}
+
+func logOf(res sim.TxResult) string {
+	if res.Res == nil {
+		return ""
+	}
+	return res.Res.Log
+}
